@@ -437,8 +437,14 @@ def sym_strformat(lit, args, kwargs):
 
 # ---------------------------------------------------------------------------------------------
 # codecs
+_ENC_ALIASES = {"utf16le": "utf_16_le", "utf16be": "utf_16_be", "utf32le": "utf_32_le", "utf32be": "utf_32_be", "utf16": "utf_16", "utf32": "utf_32", "utf8": "utf_8",
+                "usascii": "ascii", "latin1": "latin_1", "iso88591": "latin_1"}
+
+
 def _norm_enc(e):
-    return e.lower().replace("-", "_")
+    """the spelling Python's codec registry would resolve: case, '-' and '_' do not matter ('UTF-16LE' == 'utf_16_le')"""
+    e = e.lower().replace("-", "_")
+    return _ENC_ALIASES.get(e.replace("_", ""), e)
 
 
 def decode(data, encoding="utf-8", errors="strict"):
